@@ -69,6 +69,8 @@ def parse_proof_file(path):
         mm = re.match(r"(?:pub(?:\([^)]*\))?\s+)?mod\s+(\w+)\s*\{", s)
         if mm and cur_mod is None:
             cur_mod = mm.group(1)
+        if pending is not None and ("kani::stub(" in s or "kani::stub_verified(" in s):
+            pending["_stubs"] = "yes"
         if s.startswith("//@harness"):
             pending = dict(defaults)
             pending.update(dict(re.findall(r"(\w+)=((?:\"[^\"]*\")|\S+)", s[len("//@harness"):])))
@@ -86,7 +88,7 @@ def parse_proof_file(path):
                 bound=pending.get("bound", ""), timeout=int(pending.get("timeout", "300")),
                 fns=[f for f in pending.get("fns", "").split(",") if f],
                 contract=pending.get("contract", ""), expect=pending.get("expect", "pass"),
-                note=pending.get("note", ""), solver=pending.get("solver", ""),
+                note=pending.get("note", ""), solver=pending.get("solver", ""), has_stubs=(pending.get("_stubs") == "yes"),
             ))
             pending = None
     return dict(weave_into=weave_into, crate_dir=crate_dir, text=text, harnesses=harnesses, path=path)
